@@ -179,6 +179,13 @@ impl ChainModel {
 	/// Mempool admission. `package_parent_ok`: a zero-fee (TRUC) parent is accepted when the
 	/// caller relays it together with a fee-paying child.
 	pub fn admit(&mut self, tx: &Transaction, allow_zero_fee_parent: bool) -> Admit {
+		self.admit_ext(tx, allow_zero_fee_parent, false)
+	}
+
+	/// `miner`: the transaction is handed to the miner directly (a cheating peer who mines, or
+	/// pays a miner): consensus rules only, relay policy (minimum fee, replacement rules) is skipped
+	/// and conflicting mempool transactions are simply evicted.
+	pub fn admit_ext(&mut self, tx: &Transaction, allow_zero_fee_parent: bool, miner: bool) -> Admit {
 		let txid = tx.compute_txid();
 		if self.confirmed.contains_key(&txid) || self.mempool.iter().any(|m| m.compute_txid() == txid) {
 			return Admit::AlreadyKnown;
@@ -284,7 +291,7 @@ impl ChainModel {
 		let is_truc = tx.version.0 == 3;
 		// Bitcoin Core's default: 1 sat per virtual byte
 		let _ = MIN_RELAY_SAT_PER_KW;
-		if fee < (weight + 3) / 4 {
+		if fee < (weight + 3) / 4 && !miner {
 			if !(is_truc && allow_zero_fee_parent) {
 				return Admit::Policy(format!("fee {} below min relay for weight {}", fee, weight));
 			}
@@ -299,14 +306,14 @@ impl ChainModel {
 					old_weight += m.weight().to_wu();
 				}
 			}
-			if fee <= old_fee {
+			if fee <= old_fee && !miner {
 				return Admit::Policy(format!(
 					"replacement fee {} not above replaced fee {}",
 					fee, old_fee
 				));
 			}
 			// feerate must be higher than the directly replaced ones
-			if (fee as u128) * (old_weight as u128) <= (old_fee as u128) * (weight as u128) {
+			if (fee as u128) * (old_weight as u128) <= (old_fee as u128) * (weight as u128) && !miner {
 				return Admit::Policy("replacement feerate not higher".into());
 			}
 			let n = evict.len();
@@ -405,6 +412,18 @@ impl ChainModel {
 			}
 		}
 		removed
+	}
+
+	/// The confirmed transaction spending `op`, with its height.
+	pub fn confirmed_spender(&self, op: &OutPoint) -> Option<(u32, &Transaction)> {
+		for (h, b) in self.blocks.iter().enumerate() {
+			for tx in b.txs.iter() {
+				if tx.input.iter().any(|i| i.previous_output == *op) {
+					return Some((h as u32, tx));
+				}
+			}
+		}
+		None
 	}
 
 	pub fn confirmations(&self, txid: &Txid) -> u32 {
